@@ -1,16 +1,32 @@
-"""Bundled-grammar correspondence (C04 graph, C09 behaviour, C14 import orders).  Runs under /venv/bin/python with
-PYTHONPATH=/repo/src.    usage: bundled_x.py --mode graph|... --out FILE"""
+"""Bundled-grammar correspondence (C04/C09 graph, C09 behaviour, C14 import orders, C15 self-description, C19 shared
+constructs).  The parent runs under /venv/bin/python; every implementation run happens in a FRESH interpreter
+(child mode) that imports exactly the modules it is told to.
+
+usage: bundled_x.py --mode graph|behaviour|orders|c15|c19 --seed S --tier quick|thorough --out FILE
+       bundled_x.py --child JOBFILE        (prints JSON)
+"""
 from __future__ import annotations
 
 import argparse
 import json
 import os
+import random
+import subprocess
 import sys
+import tempfile
 import time
+from concurrent.futures import ThreadPoolExecutor
 
 sys.path.insert(0, os.path.dirname(os.path.abspath(__file__)))
 import common as C  # noqa: E402
+import gen  # noqa: E402
 import reg_x  # noqa: E402
+
+DRIVER = os.path.join(C.OCAML, "rundriver")
+
+
+def stoks(s):
+    return [str(len(s))] + [str(ord(c)) for c in s]
 
 
 def modules():
@@ -18,8 +34,130 @@ def modules():
     return sorted(f[:-3] for f in os.listdir(gdir) if f.endswith(".py") and f not in ("__init__.py", "misc.py"))
 
 
-def graph():
-    """all modules imported in one fresh process vs the loader model on the translated texts"""
+def run_driver(lines):
+    p = subprocess.run([DRIVER], input="\n".join(lines) + "\n", capture_output=True, text=True, check=False)
+    if p.returncode != 0:
+        raise RuntimeError("driver failed: " + p.stderr[-1500:])
+    return p.stdout.split("\n")
+
+
+def ends(res):
+    if not res.startswith("OK"):
+        return res
+    return sorted({int(m.split(":", 1)[0]) for m in res[3:].split(";")})
+
+
+def child(job, hashseed="0"):
+    with tempfile.NamedTemporaryFile("w", suffix=".json", delete=False) as f:
+        json.dump(job, f)
+        path = f.name
+    try:
+        p = subprocess.run([C.PY, os.path.abspath(__file__), "--child", path], capture_output=True, text=True,
+                           env=C.env_for_impl(hashseed), check=False)
+    finally:
+        os.unlink(path)
+    if p.returncode != 0:
+        return {"__error__": p.stderr[-2000:]}
+    return json.loads(p.stdout)
+
+
+# ------------------------------------------------------------------ child side (real library)
+def child_main(path):
+    import importlib
+    job = json.load(open(path))
+    import abnf.parser as P
+    import pyimpl
+    for m in job.get("import", []):
+        importlib.import_module("abnf.grammars." + m)
+    out = {}
+    if job.get("dump"):
+        out["dump"] = reg_x.impl_dump([])
+    if job.get("gen"):
+        # derive sentences from the library's own object graph for the rules of the given classes
+        out["cases"] = gen_cases(P, job["gen"])
+    if job.get("probe"):
+        res = []
+        for mod, cn, name, s, i, kind in job["probe"]:
+            cls = getattr(importlib.import_module("abnf.grammars." + mod), cn) if mod not in ("core", "meta") else \
+                (P.Rule if mod == "core" else P.ABNFGrammarRule)
+            r = cls.get(name)
+            if r is None:
+                res.append("NORULE")
+            elif kind == 0:
+                res.append(pyimpl.run_lparse(r, s, i))
+            elif kind == 1:
+                res.append(pyimpl.run_parse(r, s, i))
+            else:
+                res.append(pyimpl.run_parse_all(r, s))
+        out["probe"] = res
+    if job.get("flags"):
+        fl = {}
+        for mod in job["flags"]:
+            M = importlib.import_module("abnf.grammars." + mod)
+            for cn in [k for k, v in vars(M).items() if isinstance(v, type) and issubclass(v, P.Rule) and v.__module__ == M.__name__]:
+                for r in getattr(M, cn).rules():
+                    fl[f"{mod}.{cn}|{r.name.casefold()}"] = bool(r.first_match_alternation)
+        out["flags"] = fl
+    json.dump(out, sys.stdout)
+
+
+def gen_cases(P, spec):
+    """spec = {"classes": [[mod, cls]...], "seed", "per_rule", "maxlen"} -> list of [mod, cls, rule name, string]"""
+    import importlib
+    rng = random.Random(spec["seed"])
+    label = {}
+    for (c, k), o in P.Rule._obj_map.items():
+        label[id(o)] = (("core" if c is P.Rule else "meta" if c is P.ABNFGrammarRule else c.__module__.split(".")[-1] + "." + c.__name__)
+                        + "|" + k)
+    defs = {}
+    alpha = set()
+
+    def conv(p):
+        if isinstance(p, P.Rule):
+            return ["ref", label[id(p)]]
+        if isinstance(p, P.Literal):
+            if isinstance(p.value, tuple):
+                return ["range", ord(p.value[0]), ord(p.value[1])]
+            for ch in p.value:
+                alpha.add(ch)
+            return ["lit", 1 if p.case_sensitive else 0, p.value]
+        if isinstance(p, P.Alternation):
+            return ["alt", 0, [conv(x) for x in p.parsers]]
+        if isinstance(p, P.Concatenation):
+            return ["cat", [conv(x) for x in p.parsers]]
+        if isinstance(p, P.Repetition):
+            return ["rep", p.repeat.min, p.repeat.max, conv(p.element)]
+        if isinstance(p, P.Option):
+            return ["opt", conv(p.alternation)]
+        return ["prose"]
+
+    for (c, k), o in P.Rule._obj_map.items():
+        d = getattr(o, "definition", None)
+        if d is not None:
+            defs[label[id(o)]] = conv(d)
+    g = {"rules": [{"name": n, "def": d, "excl": None} for n, d in defs.items()], "alpha": sorted(alpha) or ["a"]}
+    cases = []
+    for mod, cn in spec["classes"]:
+        cls = getattr(importlib.import_module("abnf.grammars." + mod), cn)
+        for r in cls.rules():
+            lab = label[id(r)]
+            seen = set()
+            for _ in range(spec["per_rule"]):
+                s = gen.derive(rng, g, ["ref", lab], rng.choice([8, 12, 18, 25]))
+                if s is None or len(s) > spec["maxlen"]:
+                    continue
+                for t in (s, gen.mutate(rng, s, g["alpha"][:40] or ["a"])):
+                    if t not in seen:
+                        seen.add(t)
+                        cases.append([mod, cn, r.name, t])
+            for t in ("", "a", "~", " "):
+                if t not in seen:
+                    cases.append([mod, cn, r.name, t])
+    return cases
+
+
+# ------------------------------------------------------------------ graph (C04 / C09)
+def graph(a):
     mods = modules()
     impl = reg_x.child_dump(mods, C.env_for_impl("0"))
     viol = []
@@ -40,12 +178,281 @@ def graph():
     return {"coverage": {"rule_objects_compared": len(impl), "classes": len(labs), "differences": len(d)}, "violations": viol}
 
 
-if __name__ == "__main__":
+# ------------------------------------------------------------------ behaviour (C09)
+def class_list():
+    out = run_driver(["REGBOOT"])
+    cl = []
+    for ln in out:
+        t = ln.split(" ")
+        if t[0] == "CLASS":
+            dec = lambda s: "".join(chr(int(x)) for x in s.split("."))  # noqa: E731
+            cl.append((dec(t[2]), dec(t[3])))
+    return cl
+
+
+def behaviour(a):
+    """per module, in a process that imported only that module: every rule on sentences derived from the grammar,
+    mutants and a few fixed strings; end sets at offset 0 vs the engine model on the loader model's registry"""
+    per_rule = 6 if a.tier == "quick" else 60
+    classes = class_list()
+    bymod = {}
+    for m, c in classes:
+        bymod.setdefault(m, []).append(c)
+
+    def one(mod):
+        job = {"import": [mod], "gen": {"classes": [[mod, c] for c in bymod[mod]], "seed": a.seed, "per_rule": per_rule, "maxlen": 60}}
+        r = child(job)
+        if "__error__" in r:
+            return mod, None, r["__error__"]
+        cases = r["cases"]
+        r2 = child({"import": [mod], "probe": [[m, c, n, s, 0, 0] for m, c, n, s in cases]})
+        if "__error__" in r2:
+            return mod, None, r2["__error__"]
+        lines = ["RONLY " + " ".join(stoks(mod))]
+        for m, c, n, s in cases:
+            lines.append(" ".join(["RPARSEC", "0"] + stoks(m) + stoks(c) + stoks(n) + ["0"] + stoks(s)))
+        outs = run_driver(lines)[1:]
+        return mod, list(zip(cases, r2["probe"], outs)), None
+
+    with ThreadPoolExecutor(max_workers=12) as ex:
+        rs = list(ex.map(one, sorted(bymod)))
+    viol, n_eval, nontriv, acc, rules = [], 0, 0, 0, set()
+    samples = []
+    for mod, rows, err in rs:
+        if rows is None:
+            viol.append({"what": f"module {mod}: harness/import failed: {err[-300:]}", "identity": "harness-error:" + mod,
+                         "replay_payload": {"error": err}})
+            continue
+        for (m, c, n, s), impl, model in rows:
+            n_eval += 1
+            rules.add((m, c, n.lower()))
+            ei, em = ends(impl), ends(model)
+            if isinstance(ei, list):
+                acc += 1
+                if len(ei) >= 2 or (ei and ei[-1] > 0):
+                    nontriv += 1
+            if model == "OOF" or impl == "REC":
+                continue
+            if ei != em:
+                viol.append({"what": f"{m}.{c} rule {n!r} on {s!r}: implementation ends {ei}, grammar text (model) {em}",
+                             "identity": f"c09:{m}.{c}:{n}:{s!r}",
+                             "replay_payload": {"property": "C09", "module": m, "class": c, "rule": n, "source": s,
+                                                "implementation": impl[:400], "model_on_text_grammar": model[:400]}})
+        if rows and len(samples) < 4:
+            (m, c, n, s), impl, _ = rows[len(rows) // 2]
+            samples.append({"module": m, "rule": n, "source": s, "ends": ends(impl)})
+    return {"coverage": {"evaluations": n_eval, "distinct_nontrivial": nontriv, "rules_exercised": len(rules), "modules": len(bymod),
+                         "accepting_calls": acc, "samples": samples}, "violations": viol[:30]}
+
+
+# ------------------------------------------------------------------ import orders (C14)
+def orders(a):
+    rng = random.Random(a.seed)
+    mods = modules()
+    n = 10 if a.tier == "quick" else 120
+    alone = {}
+
+    def dump_of(ms):
+        return child({"import": ms, "dump": True})
+
+    def strip(d, prefix):
+        return {k: {f: v[f] for f in ("name", "def", "excl", "flag")} for k, v in d.items() if k.startswith(prefix)}
+
+    probes_for = {}
+    viol = []
+    with ThreadPoolExecutor(max_workers=12) as ex:
+        res = list(ex.map(lambda m: (m, dump_of([m])), mods))
+    for m, d in res:
+        if "__error__" in d:
+            viol.append({"what": f"import of {m} alone failed: " + d["__error__"][-200:], "identity": "import-error:" + m, "replay_payload": d})
+        else:
+            alone[m] = d["dump"]
+    jobs = []
+    for _ in range(n):
+        k = rng.randint(2, 6)
+        ms = rng.sample(mods, k)
+        jobs.append(ms)
+    jobs.append(list(reversed(mods)))
+    jobs.append(mods)
+    with ThreadPoolExecutor(max_workers=12) as ex:
+        res = list(ex.map(lambda ms: (ms, dump_of(ms)), jobs))
+    compared = 0
+    for ms, d in res:
+        if "__error__" in d:
+            viol.append({"what": f"import of {ms} failed: " + d["__error__"][-200:], "identity": "import-error", "replay_payload": d})
+            continue
+        for m in ms:
+            if m not in alone:
+                continue
+            pref = m + "."
+            x = reg_x.diff(strip(alone[m], pref), strip(d["dump"], pref))
+            compared += 1
+            for df in x[:3]:
+                viol.append({"what": f"module {m}: rule {df['rule']} {df['what']} when imported as part of {ms} instead of alone: "
+                                     + json.dumps({k: df.get(k) for k in ('implementation', 'model')})[:300],
+                             "identity": f"c14:{m}:{df['rule']}:{df['what']}",
+                             "replay_payload": {"property": "C14", "module": m, "import_order": ms, "difference": df,
+                                                "note": "'implementation' = imported alone, 'model' = imported in this order"}})
+        # core and meta must not change either
+        for pref in ("core|", "meta|"):
+            base = strip(alone[mods[0]], pref) if mods[0] in alone else None
+            if base is not None:
+                for df in reg_x.diff(base, strip(d["dump"], pref))[:2]:
+                    viol.append({"what": f"{pref} rule {df['rule']} {df['what']} after importing {ms}", "identity": f"c14:{pref}{df['rule']}",
+                                 "replay_payload": {"property": "C14", "import_order": ms, "difference": df}})
+    # and the model: alone == loader model's r_only
+    mm = 0
+    for m in mods[: (6 if a.tier == "quick" else len(mods))]:
+        md = reg_x.parse_model_dump("\n".join(run_driver(["REGONLY " + " ".join(stoks(m))])))
+        if md is None or m not in alone:
+            continue
+        mm += 1
+        for df in reg_x.diff(strip(alone[m], m + "."), strip(md, m + "."))[:2]:
+            viol.append({"what": f"module {m} imported alone differs from the loader model: {df['rule']} {df['what']}",
+                         "identity": f"c14-model:{m}:{df['rule']}", "replay_payload": {"property": "C14", "difference": df}})
+    return {"coverage": {"evaluations": compared + len(alone), "distinct_nontrivial": len({tuple(j) for j in jobs}),
+                         "import_orders": len(jobs), "module_configurations_compared": compared, "modules_alone": len(alone),
+                         "model_comparisons": mm, "samples": [{"import_order": j} for j in jobs[:3]]}, "violations": viol[:30]}
+
+
+# ------------------------------------------------------------------ C15
+META = ["rulelist", "rule", "rulename", "defined-as", "elements", "c-wsp", "c-nl", "comment", "alternation",
+        "concatenation", "repetition", "repeat", "element", "group", "option", "char-val", "num-val", "bin-val",
+        "dec-val", "hex-val", "prose-val", "case-insensitive-string", "case-sensitive-string", "quoted-string"]
+R5234 = [n for n in META if n not in ("case-insensitive-string", "case-sensitive-string", "quoted-string")]
+
+
+def c15(a):
+    per_rule = 12 if a.tier == "quick" else 150
+    r = child({"import": ["rfc7405"], "gen": {"classes": [["rfc7405", "Rule"], ["rfc5234", "Rule"]], "seed": a.seed, "per_rule": per_rule, "maxlen": 50}})
+    if "__error__" in r:
+        return {"coverage": {}, "violations": [{"what": "harness: " + r["__error__"][-300:], "identity": "harness-error", "replay_payload": r}]}
+    strings = sorted({s for _, _, _, s in r["cases"]} | {'%s"a"', '%i"a"', '"a"', "<p v>", "a / <b c>", "%x41", '%S"x"'})
+    probes = []
+    for s in strings:
+        for n in META:
+            probes.append(["rfc7405", "Rule", n, s, 0, 2])
+            probes.append(["meta", "", n, s, 0, 2])
+        for n in R5234:
+            probes.append(["rfc5234", "Rule", n, s, 0, 2])
+    res = child({"import": ["rfc7405"], "probe": probes})
+    if "__error__" in res:
+        return {"coverage": {}, "violations": [{"what": "harness: " + res["__error__"][-300:], "identity": "harness-error", "replay_payload": res}]}
+    acc = dict(zip([tuple(p[:4]) for p in probes], [x.startswith("OK") for x in res["probe"]]))
+    # the RFC 5234 text grammar (original char-val) through the model
+    lines = ["RRFC5234"]
+    for s in strings:
+        for n in R5234:
+            lines.append(" ".join(["RPARSE", "2", "2"] + stoks(n) + ["0"] + stoks(s)))
+    outs = run_driver(lines)[1:]
+    k = 0
+    viol = []
+    n_eval = 0
+    n_acc = 0
+    for s in strings:
+        for n in META:
+            n_eval += 1
+            x, y = acc[("rfc7405", "Rule", n, s)], acc[("meta", "", n, s)]
+            n_acc += x
+            if x != y:
+                viol.append({"what": f"rfc7405.Rule({n!r}) {'accepts' if x else 'rejects'} {s!r} but the library's reader rule {n!r} {'accepts' if y else 'rejects'} it",
+                             "identity": f"c15:7405:{n}:{s!r}", "replay_payload": {"property": "C15", "rule": n, "source": s, "rfc7405": x, "reader": y}})
+        for n in R5234:
+            n_eval += 1
+            x = acc[("rfc5234", "Rule", n, s)]
+            y = outs[k].startswith("OK")
+            k += 1
+            if x != y:
+                viol.append({"what": f"rfc5234.Rule({n!r}) {'accepts' if x else 'rejects'} {s!r} but the RFC 5234 text grammar {'accepts' if y else 'rejects'} it",
+                             "identity": f"c15:5234:{n}:{s!r}", "replay_payload": {"property": "C15", "rule": n, "source": s, "rfc5234_module": x, "rfc5234_text": y}})
+    return {"coverage": {"evaluations": n_eval, "distinct_nontrivial": n_acc, "strings": len(strings), "accepted": n_acc,
+                         "samples": [{"source": s} for s in strings[:: max(1, len(strings) // 4)][:4]]}, "violations": viol[:30]}
+
+
+# ------------------------------------------------------------------ C19
+def c19_pairs():
+    # the same list as coq/Pairs.v (c19_pairs); read it from there so that there is one source
+    src = open(os.path.join(C.COQ, "Pairs.v")).read()
+    import re
+    body = src[src.index("Definition c19_pairs"):src.index("Definition rule_rid")]
+    return [tuple(x) for x in re.findall(r'\("([^"]+)", "([^"]+)", "([^"]+)", "([^"]+)"\)', body)]
+
+
+def c19(a):
+    pairs = c19_pairs()
+    per_rule = 15 if a.tier == "quick" else 200
+    mods = sorted({p[0] for p in pairs} | {p[2] for p in pairs})
+    r = child({"import": mods, "gen": {"classes": [[m, "Rule"] for m in mods], "seed": a.seed, "per_rule": 0, "maxlen": 60}})
+    # sentences per pair: generate for exactly the rules in the pairs (a dedicated child run with per_rule on those rules)
+    want = sorted({(p[0], p[1]) for p in pairs} | {(p[2], p[3]) for p in pairs})
+    job = {"import": mods, "gen_rules": want, "seed": a.seed, "per_rule": per_rule}
+    g = child({"import": mods, "gen": {"classes": [[m, "Rule"] for m in mods], "seed": a.seed, "per_rule": per_rule if a.tier == "thorough" else 4,
+                                       "maxlen": 60}})
+    if "__error__" in g:
+        return {"coverage": {}, "violations": [{"what": "harness: " + g["__error__"][-300:], "identity": "harness-error", "replay_payload": g}]}
+    byrule = {}
+    for m, c, n, s in g["cases"]:
+        byrule.setdefault((m, n.lower()), set()).add(s)
+    extra = ["Sun, 06 Nov 1994 08:49:37 GMT", "sun, 06 nov 1994 08:49:37 gmt", "Sunday, 06-Nov-94 08:49:37 GMT", "Sun Nov  6 08:49:37 1994",
+             "~", "a~b", "tok", '"q\\"x"', '"', "(c(n)t)", "(", "%41", "%4g", "UTF-8'en'%E2%82%AC", "ISO-8859-1''x", "utf-8''a", "a1", "1", " ", "\t ", "",
+             "Jan", "jan", "JAN", "Mon", "mon"]
+    probes = []
+    for m1, r1, m2, r2 in pairs:
+        ss = sorted(byrule.get((m1, r1.lower()), set()) | byrule.get((m2, r2.lower()), set()) | set(extra))
+        for s in ss:
+            probes.append([m1, "Rule", r1, s, 0, 2])
+            probes.append([m2, "Rule", r2, s, 0, 2])
+    res = child({"import": mods, "probe": probes})
+    if "__error__" in res:
+        return {"coverage": {}, "violations": [{"what": "harness: " + res["__error__"][-300:], "identity": "harness-error", "replay_payload": res}]}
+    viol = []
+    n_eval = 0
+    n_acc = 0
+    import re
+    canon_words = ["Mon", "Tue", "Wed", "Thu", "Fri", "Sat", "Sun", "Monday", "Tuesday", "Wednesday", "Thursday", "Friday",
+                   "Saturday", "Sunday", "Jan", "Feb", "Mar", "Apr", "May", "Jun", "Jul", "Aug", "Sep", "Oct", "Nov", "Dec", "GMT"]
+
+    def case_normal(t):
+        return re.sub(r"[A-Za-z]+", lambda m: next((w for w in canon_words if w.lower() == m.group(0).lower()), m.group(0)), t)
+
+    diffs = []
+    it = iter(zip(probes, res["probe"]))
+    for (p1, x1), (p2, x2) in zip(it, it):
+        n_eval += 1
+        a1, a2 = x1.startswith("OK"), x2.startswith("OK")
+        n_acc += a1
+        if a1 != a2:
+            diffs.append((p1, p2, a1, a2))
+    # a difference is the KNOWN finding only if it is a pure letter-case difference of rfc2616's date literals:
+    # rfc2616 accepts s, rfc7231 rejects s but accepts the same string with canonical case
+    second = [[p2[0], "Rule", p2[2], case_normal(p1[3]), 0, 2] for p1, p2, a1, a2 in diffs]
+    res2 = child({"import": mods, "probe": second})["probe"] if diffs else []
+    for (p1, p2, a1, a2), y in zip(diffs, res2):
+        known = (p1[0] == "rfc2616" and p2[0] == "rfc7231" and a1 and not a2 and y.startswith("OK")
+                 and case_normal(p1[3]) != p1[3])
+        viol.append({"what": f"{p1[0]}.{p1[2]} {'accepts' if a1 else 'rejects'} {p1[3]!r} but {p2[0]}.{p2[2]} {'accepts' if a2 else 'rejects'} it",
+                     "identity": "rfc2616-date-case" if known else f"c19:{p1[0]}.{p1[2]}:{p2[0]}.{p2[2]}:{p1[3]!r}",
+                     "replay_payload": {"property": "C19", "rule1": p1[:3], "rule2": p2[:3], "source": p1[3], "accepts1": a1, "accepts2": a2}})
+    return {"coverage": {"evaluations": n_eval, "distinct_nontrivial": n_acc, "pairs": len(pairs), "accepted_by_first": n_acc,
+                         "samples": [{"pair": list(p)} for p in pairs[:3]]}, "violations": viol[:40]}
+
+
+def main():
     ap = argparse.ArgumentParser()
-    ap.add_argument("--mode", required=True)
-    ap.add_argument("--out", required=True)
+    ap.add_argument("--mode", default=None)
+    ap.add_argument("--seed", type=int, default=0)
+    ap.add_argument("--tier", default="quick")
+    ap.add_argument("--out", default=None)
+    ap.add_argument("--child", default=None)
     a = ap.parse_args()
+    if a.child:
+        child_main(a.child)
+        return
     t0 = time.time()
-    r = graph()
+    r = {"graph": graph, "behaviour": behaviour, "orders": orders, "c15": c15, "c19": c19}[a.mode](a)
     r["wall_s"] = time.time() - t0
     json.dump(r, open(a.out, "w"))
+
+
+if __name__ == "__main__":
+    main()
